@@ -58,6 +58,7 @@ class Share:
         self._dyhb_rtt = dyhb_rtt
         # self._alive becomes False upon fatal corruption or server error
         self._alive = True
+        self._abandoned_because = None
         self._loop_scheduled = False
         self._lp = log.msg(format="%(share)s created", share=repr(self),
                            level=log.NOISY, parent=logparent, umid="P7hv2w")
@@ -199,6 +200,11 @@ class Share:
     def loop(self):
         self._loop_scheduled = False
         if not self._alive:
+            # We were abandoned earlier, perhaps while nobody was waiting
+            # for a block (e.g. the connection was lost between segments).
+            # Whoever asks now must hear about it, or their SegmentFetcher
+            # waits forever.
+            self._notify_dead(self._abandoned_because)
             return
         try:
             # if any exceptions occur here, kill the download
@@ -834,7 +840,12 @@ class Share:
                 share=repr(self), failure=f,
                 level=level, parent=self._lp, umid="JKM2Og")
         self._alive = False
-        for (segnum, observers) in self._requested_blocks:
+        self._abandoned_because = f
+        self._notify_dead(f)
+
+    def _notify_dead(self, f):
+        requested, self._requested_blocks = self._requested_blocks, []
+        for (segnum, observers) in requested:
             for o in observers:
                 o.notify(state=DEAD, f=f)
 
